@@ -36,18 +36,20 @@ EXHAUSTIVE = True
 RULE = (
     "stub family: image kind {scalar, RGB} x image class {ScalarImage/OpticalImage, generic Image} x shapes x dtype {uint8,uint16,float32,float64} "
     "(thorough: x probe dtype {same, other float}) x extra baselines 0..3 x each of reduction/balancing/restoration/model {absent, recording stub} x "
-    "order {restoration->model, model->restoration}; real family: kind x shapes x dtypes x MonochromaticReduction mode (all 9 + callable + none) x "
-    "balancing {none, ScalingModel} x TVD {none, chambolle, anisotropic/isotropic bregman} x model {none, LinearModel, ScalingModel, unit ScalingModel} x "
-    "order x extras {0,2}. Inside every lattice point: all 4 diff options x probes {baseline object itself, +-mixed pattern, second mixed pattern, all-positive, "
-    "all-negative, sub-threshold, +-impulse pair (thorough: the complete +-impulse basis)}; every probe on a fresh analysis, then an Eulerian circuit over all "
-    "ordered probe pairs (incl. repeats) on one shared analysis = all 2-call histories. Non-trivial = the reference output of the lattice point is not "
-    "identically zero over its probes; distinct = distinct case descriptor."
+    "order {restoration->model, model->restoration}; real family: kind x shapes x dtypes x MonochromaticReduction mode (8 colour modes + '' + callable + none) x "
+    "balancing {none; thorough: + ScalingModel} x TVD {none, chambolle, anisotropic/isotropic bregman} x model {none, LinearModel, ScalingModel, unit ScalingModel} x "
+    "order x extras {0,2}, minus the a-priori exclusions listed under bounds. Inside every lattice point: all 4 diff options x probes {baseline object itself, "
+    "two mixed-sign patterns, sub-threshold pattern, +-impulse pair; thorough: + all-positive, all-negative and (stub family) the complete +-impulse basis}; every "
+    "probe on a fresh analysis, then on ONE shared analysis an Eulerian circuit over all ordered pairs (repeats included) of the history probes = all 2-call "
+    "histories, followed by every remaining probe. Non-trivial = the reference output of the lattice point is not identically zero over its probes; distinct = "
+    "distinct case descriptor."
 )
 ASSUMPTIONS = [
     "cleaning is the documented thresholding filter clip(s - T, 0), T the element-wise maximum (floored at 0) of the reduced differences of the extra baselines taken with the selected diff option",
     "integer images are promoted with the skimage convention x/255 (uint8), x/65535 (uint16)",
     "TVD reference = the skimage routine the wrapper documents, called with the wrapper's parameters (TVD numerics themselves are not the subject)",
-    "hsv reduction is compared on non-negative differences only (diff options positive/negative/absolute); 'heterogeneous bregman' TVD is left to C16",
+    "hsv reduction is compared on non-negative differences of float images only (its hue/saturation thresholds are discontinuous: a signed input is outside the colour model and the 1/255 promotion is only defined up to the last bit); 'heterogeneous bregman' TVD is left to C16",
+    "skimage's bregman routine squeezes unit extents, so bregman TVD is a shape-preserving stage only on shapes without unit extent",
 ]
 
 DIFFS = ["positive", "negative", "absolute", "plain"]
@@ -55,7 +57,7 @@ SHAPES = {"quick": [(1, 1), (3, 4), (5, 2)], "thorough": [(1, 1), (1, 3), (3, 3)
 DTYPES = ["uint8", "uint16", "float32", "float64"]
 REAL_DTYPES = {"quick": ["float64", "uint8"], "thorough": ["float64", "float32", "uint8", "uint16"]}
 REAL_RED = ["none", "", "red", "green", "blue", "red+green", "gray", "negative-key", "hsv", "callable"]
-REAL_BAL = ["none", "scaling"]
+REAL_BAL = {"quick": ["none"], "thorough": ["none", "scaling"]}
 REAL_RES = ["none", "chambolle", "anisotropic bregman", "isotropic bregman"]
 REAL_MOD = ["none", "linear", "scaling", "unit"]
 ORDERS = ["rm", "mr"]  # rm: restoration then model (default), mr: model then restoration
@@ -73,6 +75,10 @@ def describe(tier):
         "diff_options": DIFFS,
         "real_reductions": REAL_RED,
         "real_restorations": REAL_RES,
+        "real_balancing": REAL_BAL[tier],
+        "probes": ["self", "mixed", "mixed2", "small", "impulses"] + ([] if tier == "quick" else ["pos", "neg", "every +-16 impulse (stub family)"]),
+        "history": "Eulerian circuit over all ordered pairs of " + ("{self, mixed, mixed2}" if tier == "quick" else "the 7 main probes") + ", then every other probe once",
+        "excluded_a_priori": ["real: bregman TVD x shapes with a unit extent", "real: hsv x integer dtypes", "real: hsv x diff option plain", "real: colour reductions x scalar images"],
         "real_models": REAL_MOD,
         "probe_dtype": ["same"] if tier == "quick" else ["same", "other-float"],
         "impulse_probes": "one +- pair" if tier == "quick" else "complete +- basis",
@@ -90,10 +96,14 @@ def cases(tier):
              "red": red, "bal": bal, "res": res, "mod": mod, "order": order, "tier": tier}
         )
     for kind, shape, dt, extras, red, bal, res, mod, order in itertools.product(
-        ["scalar", "rgb"], SHAPES[tier], REAL_DTYPES[tier], [0, 2], REAL_RED, REAL_BAL, REAL_RES, REAL_MOD, ORDERS
+        ["scalar", "rgb"], SHAPES[tier], REAL_DTYPES[tier], [0, 2], REAL_RED, REAL_BAL[tier], REAL_RES, REAL_MOD, ORDERS
     ):
         if kind == "scalar" and red not in ("none", ""):
             continue  # colour reductions are defined on RGB input only
+        if "bregman" in res and 1 in shape:
+            continue  # skimage's bregman routine squeezes unit extents: not a shape-preserving stage there
+        if red == "hsv" and dt.startswith("uint"):
+            continue  # hue/saturation thresholds are discontinuous in the last bit of the 1/255 promotion
         out.append(
             {"fam": "real", "kind": kind, "cls": "special", "shape": list(shape), "dtype": dt, "pdtype": "same", "extras": extras,
              "red": red, "bal": bal, "res": res, "mod": mod, "order": order, "tier": tier}
@@ -334,6 +344,10 @@ def _euler(n):
 
 
 # --------------------------------------------------------------------------- the case
+def _res_digest(canon, res, phys):
+    return canon.digest([np.asarray(res.img), phys, type(res).__name__, bool(res.scalar)])
+
+
 def run_case(case, r):
     import darsia
 
@@ -344,20 +358,24 @@ def run_case(case, r):
     rgb = kind == "rgb"
     pdt = dt if case["pdtype"] == "same" else ("float32" if dt == "float64" else "float64")
     is_int = dt.startswith("uint") or pdt.startswith("uint")
+    num, clean = ("int" if is_int else "float"), f"clean={'on' if extras else 'off'}"
     if fam == "stub":
         reduced = rgb and bool(case["red"])
-        red_tag = "reduced" if reduced else "unreduced"
         tol = 1e-9 if is_int else 0.0
+        # stub family: the input class is the data path (kind, reduction, promotion, filter)
+        tag = f"stub/{kind}-{'reduced' if reduced else 'unreduced'}/{num}/{clean}"
+        exc_tag = f"stub/{kind}-{'reduced' if reduced else 'unreduced'}/{clean}"
     else:
         reduced = rgb and case["red"] not in ("none", "")
-        red_tag = f"red={case['red'] or 'identity'}"
         tol = 2e-5 if ("float32" in (dt, pdt) or case["red"] == "gray") else 1e-12
-    cls_tag = f"{fam}/{kind}-{red_tag}/{'int' if is_int else 'float'}/clean={'on' if extras else 'off'}"
-    if fam == "real":
-        cls_tag += f"/res={case['res'].split()[0]}/mod={case['mod']}"
+        # real family: the input class is the combination of anchored components
+        tag = f"real/red={case['red'] or 'identity'}/res={case['res'].split()[0]}/mod={case['mod']}"
+        exc_tag = f"real/{kind}-{'reduced' if reduced else 'unreduced'}/{clean}"
 
     def cell(clause, opt=None):
-        return f"C13/{clause}/{cls_tag}" + (f"/diff={opt}" if opt else "")
+        if clause == "no-exception":
+            return f"C13/no-exception/{exc_tag}"
+        return f"C13/{clause}/{tag}" + (f"/diff={opt}" if (opt and fam == "stub") else "")
 
     # ---- data -------------------------------------------------------------------
     B = _ints(shape, rgb, "base")
@@ -366,26 +384,30 @@ def run_case(case, r):
     imp = np.zeros_like(B)
     imp.flat[0] += 16
     imp.flat[-1] -= 16  # on a single-entry image the pair cancels to the baseline value: still a valid probe
-    probe_ints = [("mixed", B + D1), ("mixed2", B - D2), ("pos", B + np.abs(D1)), ("neg", B - np.abs(D1)), ("small", B + S), ("impulses", B + imp)]
+    probe_ints = [("mixed", B + D1), ("mixed2", B - D2), ("small", B + S), ("impulses", B + imp)]
+    n_hist = 3  # quick: all ordered pairs of {self, mixed, mixed2}
+    if tier == "thorough":
+        probe_ints += [("pos", B + np.abs(D1)), ("neg", B - np.abs(D1))]
+        n_hist = 7
     base_img = _image(kind, cls, _to_dtype(B, dt), "base")
     extra_imgs = [_image(kind, cls, _to_dtype(B + _ints(shape, rgb, "noise", k), dt), f"extra{k}") for k in range(extras)]
     probes = [("self", base_img)] + [(n, _image(kind, cls, _to_dtype(a, pdt), "probe")) for n, a in probe_ints]
-    base_p = _promote(base_img.img)
-    extras_p = [_promote(e.img) for e in extra_imgs]
-    probes_p = [_promote(p.img) for _, p in probes]
-    n_main = len(probes)
     if tier == "thorough" and fam == "stub":
         for pos in range(B.size):
             for sgn in (16, -16):
                 a = B.copy()
                 a.flat[pos] += sgn
                 probes.append((f"imp{sgn:+d}@{pos}", _image(kind, cls, _to_dtype(a, pdt), "probe")))
-                probes_p.append(_promote(probes[-1][1].img))
+    base_p = _promote(base_img.img)
+    extras_p = [_promote(e.img) for e in extra_imgs]
+    probes_p = [_promote(p.img) for _, p in probes]
+    snaps = [canon.digest(p) for _, p in probes]  # deep snapshot: data bytes, dtype, every attribute
+    physs = [_phys(p) for _, p in probes]
 
     log: list = []
     objs, refs = _build_stages(case, log)
 
-    def make():
+    def make(opt):
         return darsia.ConcentrationAnalysis(
             [base_img] + extra_imgs if extras else base_img,
             objs["red"], objs["bal"], objs["res"], objs["mod"],
@@ -405,9 +427,8 @@ def run_case(case, r):
             want = _ref_pipeline(refs, order, _ref_diff(opt, probes_p[pi], base_p), thr)
             any_nonzero = any_nonzero or bool(np.any(want["out"] != 0))
             del log[:]
-            snap = canon.digest(probe)
             try:
-                an = make()
+                an = make(opt)
                 ctor_log = list(log)
                 del log[:]
                 res = an(probe)
@@ -417,7 +438,7 @@ def run_case(case, r):
                 break
             call_log = list(log)
             # -- probe untouched
-            r.check(canon.digest(probe) == snap, cell("probe-unmodified"), "the probe image (data, dtype, metadata) is left unmodified", diff=opt, probe=pname)
+            r.check(canon.digest(probe) == snaps[pi], cell("probe-unmodified"), "the probe image (data, dtype, metadata) is left unmodified", diff=opt, probe=pname)
             # -- composition
             got = np.asarray(res.img)
             ok = r.check(
@@ -425,7 +446,7 @@ def run_case(case, r):
                 cell("baseline-zero" if pname == "self" else "composition", opt),
                 "analysis(baseline) = model(restoration(balancing(cleaning(reduction(0)))))" if pname == "self"
                 else "analysis(probe) = model(restoration(balancing(cleaning(reduction(difference))))) (restoration/model swapped when configured)",
-                probe=pname, order=order, got=got, want=want["out"],
+                diff=opt, probe=pname, order=order, got=got, want=want["out"],
             )
             if pname == "self" and not any(refs.values()):
                 r.check(got.shape == want["out"].shape and not np.any(got != 0), cell("baseline-zero", opt), "without stages the baseline maps to exactly zero signal", got=got)
@@ -440,40 +461,40 @@ def run_case(case, r):
             else:
                 r.check(isinstance(res, darsia.Image) and bool(res.scalar) == bool(probe.scalar), cell("scalar-image"),
                         "an unreduced signal keeps the probe's data layout", got=type(res).__name__, scalar=res.scalar)
-            pm, rm = _phys(probe), _phys(res)
-            r.check(pm == rm, cell("metadata"), "the result carries the probe's physical metadata (extent, origin, time)", probe=pm, result=rm)
+            rm = _phys(res)
+            r.check(physs[pi] == rm, cell("metadata"), "the result carries the probe's physical metadata (extent, origin, time)", probe=physs[pi], result=rm)
             # -- instrumented stages: call order and inputs
             if fam == "stub" or case["red"] == "callable":
                 present = [k for k in want["seq"] if (case[k] if fam == "stub" else k == "red")]
-                r.check([n for n, _ in call_log] == present, cell("stage-order"), "each configured stage is called exactly once, in the documented order",
-                        got=[n for n, _ in call_log], want=present, order=order)
-                if [n for n, _ in call_log] == present:
+                names = [n for n, _ in call_log]
+                r.check(names == present, cell("stage-order"), "each configured stage is called exactly once, in the documented order", got=names, want=present, order=order)
+                if names == present:
                     for n, x in call_log:
-                        r.check(_same(x, want["inputs"][n], tol), cell(f"stage-input/{n}", opt), "each stage receives the output of its predecessor", probe=pname, got=x,
-                                want=want["inputs"][n])
+                        r.check(_same(x, want["inputs"][n], tol), cell(f"stage-input/{n}", opt), "each stage receives the output of its predecessor", diff=opt, probe=pname,
+                                got=x, want=want["inputs"][n])
                         if n == "red":
                             obs_diff[(opt, pi)] = np.asarray(x, dtype=np.float64)
                 exp_ctor = ["red"] * extras if "red" in present else []
-                if r.check([n for n, _ in ctor_log] == exp_ctor, cell("cleaning-filter"), "the cleaning filter reduces every extra baseline once", got=[n for n, _ in ctor_log]):
+                cnames = [n for n, _ in ctor_log]
+                if r.check(cnames == exp_ctor, cell("cleaning-filter"), "the cleaning filter reduces every extra baseline once", got=cnames):
                     for (n, x), e in zip(ctor_log, extras_p):
-                        r.check(_same(x, _ref_diff(opt, e, base_p), tol), cell("cleaning-filter", opt), "the filter is learnt from the differences of the extra baselines", got=x)
-            fresh_digest[pi] = canon.digest([np.asarray(res.img), rm, type(res).__name__, bool(res.scalar)])
+                        r.check(_same(x, _ref_diff(opt, e, base_p), tol), cell("cleaning-filter", opt), "the filter is learnt from the differences of the extra baselines",
+                                diff=opt, got=x)
+            fresh_digest[pi] = _res_digest(canon, res, rm)
             digests.append(fresh_digest[pi])
         else:
-            # -- 2-call histories: Eulerian circuit over the main probes on ONE analysis object
+            # -- 2-call histories on ONE analysis object: an Eulerian circuit over the first n_hist
+            # probes (every ordered pair, repeats included), then every other probe once
             try:
-                an = make()
-                for pi in _euler(n_main):
+                an = make(opt)
+                for pi in _euler(min(n_hist, len(probes))) + list(range(n_hist, len(probes))):
                     res = an(probes[pi][1])
-                    d = canon.digest([np.asarray(res.img), _phys(res), type(res).__name__, bool(res.scalar)])
-                    r.check(d == fresh_digest[pi], cell("history", opt), "analysis(A); analysis(B) returns for B what a fresh analysis returns", probe=probes[pi][0])
-                # the thorough impulse probes ride on the same (used) object
-                for pi in range(n_main, len(probes)):
-                    res = an(probes[pi][1])
-                    d = canon.digest([np.asarray(res.img), _phys(res), type(res).__name__, bool(res.scalar)])
-                    r.check(d == fresh_digest[pi], cell("history", opt), "analysis(A); analysis(B) returns for B what a fresh analysis returns", probe=probes[pi][0])
+                    r.check(_res_digest(canon, res, _phys(res)) == fresh_digest[pi], cell("history", opt),
+                            "analysis(A); analysis(B) returns for B exactly what a fresh analysis returns", diff=opt, probe=probes[pi][0])
             except Exception as e:
                 r.fail(cell("no-exception"), "repeated calls succeed", diff=opt, exception=f"{type(e).__name__}: {e}")
+            for pi in range(len(probes)):
+                r.check(canon.digest(probes[pi][1]) == snaps[pi], cell("probe-unmodified"), "the probe image is left unmodified by repeated calls", diff=opt, probe=probes[pi][0])
 
     # ---- positive + negative = absolute, positive - negative = plain --------------
     id_tol = max(tol, 1e-12) if (is_int or fam == "real") else 0.0
